@@ -180,6 +180,15 @@ Theorem C07_src_backward_pass : forall cfg w ds l cl, isolated_ok w = true ->
   c07_task_st w (ds_start ds) (ds_end ds) (ds_est ds) (ds_spent ds) t.
 Proof. exact src_bwd_rollups. Qed.
 
+(* ---- WBS.start / WBS.end from the source text (wbs.py; gen/SrcPass.v src_wbs_start / src_wbs_end; Sched/SrcWbsDates.v) ---- *)
+From PJ Require Import Sched.SrcWbsDates.
+
+Theorem C07_src_wbs_start : forall w ds, src_wbs_start w ds = Ok (wbs_start w (ds_start ds)).
+Proof. exact src_wbs_start_eq. Qed.
+
+Theorem C07_src_wbs_end : forall w ds, src_wbs_end w ds = Ok (wbs_end w (ds_end ds)).
+Proof. exact src_wbs_end_eq. Qed.
+
 Print Assumptions C07_forward.
 Print Assumptions C07_backward.
 Print Assumptions C07_order_forward.
@@ -198,3 +207,5 @@ Print Assumptions C07_model_passes_case_bits.
 Print Assumptions C07_example.
 Print Assumptions C07_src_forward_pass.
 Print Assumptions C07_src_backward_pass.
+Print Assumptions C07_src_wbs_start.
+Print Assumptions C07_src_wbs_end.
